@@ -366,6 +366,17 @@ def run_shard(shard_prop, bins, workdir, tier):
             cases.append((cid, 'default', ops))
             extra[cid] = ('cycle', 10 + ncyc)
             cid += 1
+        # cycles that close through a reference item (no pointer surgery needed: b holds a reference
+        # to its own ancestor a), with and without elder siblings that are copied before the refusal
+        for variant in range(4):
+            ops = ['carr 1']
+            if variant & 1:
+                ops += ['cstr 4 =78', 'adda 1 4', 'cnum 5 4000000000000000', 'adda 1 5']
+            ops += (['carr 2', 'adda 1 2', 'addrefa 2 1'] if variant < 2 else ['cobj 2', 'adda 1 2', 'addrefo 2 =6b 1'])
+            ops += ['stackop dup 9 1', 'del 9', 'del 1', 'clr 2', 'clr 4', 'clr 5']
+            cases.append((cid, 'default' if variant & 1 else 'custom', ops))
+            extra[cid] = ('cycle', 20 + variant)
+            cid += 1
         for ncyc in (1, 2, 3):
             ops = ['carr 1', 'cobj 2', 'carr 3']
             if ncyc == 1:
